@@ -45,6 +45,7 @@ EXTENDS MultiPassGuards, Json, SequencesExt
 CONSTANTS
     Catalogs, Limits, Daemons, Batches, Laters,   \* scenario scope (sets of ids)
     MaxRounds, MaxClaims, MaxSteps,
+    EphForms, StForms,   \* forms of the ephemeral / startup taints on a node that appears (history only: same taints to Kubernetes)
     W_NoSyncGate,      \* a pass runs although a NodeClaim is not launched / not known to be launched
     W_SubMin,          \* the per-resource MINIMUM of the permitted types is charged against the limits
     W_SubDominating,   \* one "dominating" type (largest cpu) is charged instead of the per-resource maximum
@@ -56,9 +57,9 @@ CONSTANTS
     C_NodesPerPass,    \* pinned tree: `nodes` is not charged for NodeClaims opened within a pass
     C_OverrideBase     \* pinned tree: limits are charged with the base capacity, capacity-override offerings ignored
 
-VARIABLES sc, pst, bto, home, cl, nc, ph, q, plc, opn, rem, sh, rounds, ns, bad, h
-vars == <<sc, pst, bto, home, cl, nc, ph, q, plc, opn, rem, sh, rounds, ns, bad, h>>
-view == <<sc, pst, bto, home, cl, nc, ph, q, plc, opn, rem, sh, rounds, ns, bad>>
+VARIABLES sc, pst, bto, home, cl, nc, ph, q, plc, opn, rem, sh, rounds, ns, bad, rst, h
+vars == <<sc, pst, bto, home, cl, nc, ph, q, plc, opn, rem, sh, rounds, ns, bad, rst, h>>
+view == <<sc, pst, bto, home, cl, nc, ph, q, plc, opn, rem, sh, rounds, ns, bad, rst>>
 
 ----------------------------------------------------------------------------
 (* scenario space (record shapes of the driver's scenario JSON) *)
@@ -169,7 +170,7 @@ Sub3(r, k) == [cpu |-> IF r.cpu = Big THEN Big ELSE r.cpu - k.cpu, mem |-> IF r.
                nodes |-> IF r.nodes = Big \/ C_NodesPerPass THEN r.nodes ELSE r.nodes - 1]
 
 ----------------------------------------------------------------------------
-Stp(a, c, d, t, o, lb, z, e, pod) == [a |-> a, c |-> c, deliver |-> d, type |-> t, off |-> o, labels |-> lb, zero |-> z, eph |-> e, pod |-> pod]
+Stp(a, c, d, t, o, lb, z, e, pod) == [a |-> a, c |-> c, deliver |-> d, type |-> t, off |-> o, labels |-> lb, zero |-> z, eph |-> e, ephv |-> 0, stv |-> 0, pod |-> pod]
 S1(a, c) == Stp(a, cl[c].opener, FALSE, "-", 0, FALSE, FALSE, FALSE, "-")
 Log(s) == h' = Append(h, s) /\ ns' = ns + 1
 More == ns < MaxSteps /\ ph = "idle"
@@ -178,7 +179,7 @@ Init ==
     /\ sc \in ScSpace
     /\ pst = [p \in PodNames |-> IF p = "w3" THEN "absent" ELSE "pending"] /\ bto = [p \in PodNames |-> 0] /\ home = [p \in PodNames |-> 0]
     /\ cl = [c \in 1..MaxClaims |-> NoClaim] /\ nc = 0 /\ ph = "idle" /\ q = <<>> /\ plc = [c \in 1..MaxClaims |-> {}] /\ opn = {}
-    /\ rem = [cpu |-> 0, mem |-> 0, nodes |-> 0] /\ sh = FALSE /\ rounds = 0 /\ ns = 0 /\ bad = [needless |-> FALSE, idem |-> FALSE] /\ h = <<>>
+    /\ rem = [cpu |-> 0, mem |-> 0, nodes |-> 0] /\ sh = FALSE /\ rounds = 0 /\ ns = 0 /\ bad = [needless |-> FALSE, idem |-> FALSE] /\ rst = FALSE /\ h = <<>>
 
 \* ---- a pass
 Delivered == [c \in 1..MaxClaims |-> IF Launched(c) THEN [cl[c] EXCEPT !.known = TRUE] ELSE cl[c]]
@@ -195,13 +196,14 @@ SameHomeM(cc) ==
 Stale == \E c \in Claims : cl[c].st = "created" \/ (Launched(c) /\ ~cl[c].known)
 PassStart(d) ==
     /\ More /\ rounds < MaxRounds
-    /\ (~d => Stale)       \* a pass without delivery is only interesting when something is not launched / not known to be launched
+    /\ (~d => Stale \/ rst)    \* a pass without delivery is only interesting when something is not launched / not known to be launched
     /\ LET cc == IF d THEN Delivered ELSE cl IN
        /\ cl' = cc /\ rounds' = rounds + 1 /\ Log(Stp("Pass", "-", d, "-", 0, FALSE, FALSE, FALSE, "-"))
        /\ IF SyncedM(cc) \/ W_NoSyncGate
           THEN /\ ph' = "sched" /\ q' = SortSeq(SetToSeq(BatchSet(cc)), Before) /\ plc' = [c \in 1..MaxClaims |-> {}] /\ opn' = {}
                /\ sh' = SameHomeM(cc)
           ELSE UNCHANGED <<ph, q, plc, opn, sh>>
+    /\ rst' = FALSE
     /\ UNCHANGED <<sc, pst, bto, home, nc, bad, rem>>
 FixRem == ph = "sched" /\ q # <<>>
 AnyNodeAdmits(p) == \E c \in Claims : ViewAdmits(c, p)
@@ -209,13 +211,13 @@ AnyOpenAdmits(p) == \E c \in opn : AdmitsClaim(cfg, OpenRec(c), PodRec(p))
 PlaceNode(c) ==
     /\ FixRem /\ ViewAdmits(c, Head(q))
     /\ plc' = [plc EXCEPT ![c] = @ \cup {Head(q)}] /\ home' = [home EXCEPT ![Head(q)] = c] /\ q' = Tail(q)
-    /\ UNCHANGED <<sc, pst, bto, cl, nc, ph, opn, rem, sh, rounds, ns, bad, h>>
+    /\ UNCHANGED <<sc, pst, bto, cl, nc, ph, opn, rem, sh, rounds, ns, bad, h, rst>>
 PlaceOpen(c) ==
     /\ FixRem /\ ~AnyNodeAdmits(Head(q)) /\ c \in opn /\ AdmitsClaim(cfg, OpenRec(c), PodRec(Head(q)))
     /\ LET P == cl[c].pods \cup {Head(q)} IN
        cl' = [cl EXCEPT ![c] = [@ EXCEPT !.pods = P, !.its = {tn \in @ : Hosts(tn, {Key(p) : p \in P})}]]
     /\ home' = [home EXCEPT ![Head(q)] = c] /\ q' = Tail(q)
-    /\ UNCHANGED <<sc, pst, bto, nc, ph, plc, opn, rem, sh, rounds, ns, bad, h>>
+    /\ UNCHANGED <<sc, pst, bto, nc, ph, plc, opn, rem, sh, rounds, ns, bad, h, rst>>
 OpenNew ==
     LET p == Head(q)
         r == IF opn = {} THEN Rem0 ELSE rem
@@ -231,12 +233,12 @@ OpenNew ==
                           idem |-> bad.idem \/ sh]
           ELSE /\ home' = [home EXCEPT ![p] = 0] /\ UNCHANGED <<nc, opn, cl, rem, bad>>      \* the pod stays pending
        /\ q' = Tail(q)
-       /\ UNCHANGED <<sc, pst, bto, ph, plc, sh, rounds, ns, h>>
+       /\ UNCHANGED <<sc, pst, bto, ph, plc, sh, rounds, ns, h, rst>>
 PassEnd ==
     /\ ph = "sched" /\ q = <<>>
     /\ cl' = [c \in 1..MaxClaims |-> IF c \in opn THEN [cl[c] EXCEPT !.st = "created"] ELSE cl[c]]
     /\ ph' = "idle" /\ opn' = {}
-    /\ UNCHANGED <<sc, pst, bto, home, nc, q, plc, rem, sh, rounds, ns, bad, h>>
+    /\ UNCHANGED <<sc, pst, bto, home, nc, q, plc, rem, sh, rounds, ns, bad, h, rst>>
 
 \* ---- the life of a NodeClaim
 Launch(c, tn, o) ==
@@ -244,60 +246,66 @@ Launch(c, tn, o) ==
     /\ LET t == TypeByName(cfg, tn) IN o + 1 \in DOMAIN t.offerings /\ OptionHosts(cfg, pool, t, t.offerings[o + 1], {Key(p) : p \in cl[c].pods})
     /\ cl' = [cl EXCEPT ![c] = [@ EXCEPT !.st = "launched", !.ty = tn, !.off = o]]
     /\ Log(Stp("Launch", cl[c].opener, FALSE, tn, o, FALSE, FALSE, FALSE, "-"))
-    /\ UNCHANGED <<sc, pst, bto, home, nc, ph, q, plc, opn, rem, sh, rounds, bad>>
+    /\ UNCHANGED <<sc, pst, bto, home, nc, ph, q, plc, opn, rem, sh, rounds, bad, rst>>
 AppearVariants == {<<FALSE, TRUE, TRUE>>, <<TRUE, FALSE, FALSE>>, <<FALSE, FALSE, TRUE>>, <<TRUE, TRUE, FALSE>>}   \* labels, zero, eph
-Appear(c, v) ==
-    /\ More /\ c \in Claims /\ cl[c].st = "launched" /\ ~cl[c].deleting
+\* ev: which known ephemeral taint and in which form (same taint by key + effect, different value / timeAdded): 1 not-ready NoSchedule,
+\* 2 not-ready NoExecute + timeAdded, 3 not-ready NoSchedule + timeAdded, 4 unreachable NoSchedule + timeAdded, 5 cloud-provider
+\* uninitialized + timeAdded, 6 not-ready with a value, 7 uninitialized with another value; sv: form of the startup taint on the Node
+\* (0 as declared, 1 other value, 2 timeAdded).  The forms are the same taints to Kubernetes, so they only show in the history.
+Appear(c, v, ev, sv) ==
+    /\ More /\ c \in Claims /\ cl[c].st = "launched" /\ ~cl[c].deleting /\ (v[3] <=> ev > 0)
     /\ cl' = [cl EXCEPT ![c] = [@ EXCEPT !.st = "appeared", !.lbl = v[1], !.zero = v[2], !.eph = v[3], !.startupT = TRUE]]
-    /\ Log(Stp("Appear", cl[c].opener, FALSE, "-", 0, v[1], v[2], v[3], "-"))
-    /\ UNCHANGED <<sc, pst, bto, home, nc, ph, q, plc, opn, rem, sh, rounds, bad>>
+    /\ Log([Stp("Appear", cl[c].opener, FALSE, "-", 0, v[1], v[2], v[3], "-") EXCEPT !.ephv = ev, !.stv = sv])
+    /\ UNCHANGED <<sc, pst, bto, home, nc, ph, q, plc, opn, rem, sh, rounds, bad, rst>>
 Register(c) ==
     /\ More /\ c \in Claims /\ cl[c].st = "appeared" /\ ~cl[c].deleting
     /\ cl' = [cl EXCEPT ![c] = [@ EXCEPT !.st = "registered"]] /\ Log(S1("Register", c))
-    /\ UNCHANGED <<sc, pst, bto, home, nc, ph, q, plc, opn, rem, sh, rounds, bad>>
+    /\ UNCHANGED <<sc, pst, bto, home, nc, ph, q, plc, opn, rem, sh, rounds, bad, rst>>
 Partial(c) ==
     /\ More /\ c \in Claims /\ cl[c].st = "registered" /\ cl[c].startupT /\ (cl[c].eph \/ cl[c].zero)
     /\ cl' = [cl EXCEPT ![c] = [@ EXCEPT !.startupT = FALSE]] /\ Log(S1("Partial", c))
-    /\ UNCHANGED <<sc, pst, bto, home, nc, ph, q, plc, opn, rem, sh, rounds, bad>>
+    /\ UNCHANGED <<sc, pst, bto, home, nc, ph, q, plc, opn, rem, sh, rounds, bad, rst>>
 Initialize(c) ==
     /\ More /\ c \in Claims /\ cl[c].st = "registered" /\ ~cl[c].deleting
     /\ cl' = [cl EXCEPT ![c] = [@ EXCEPT !.st = "initialized", !.startupT = FALSE, !.eph = FALSE, !.zero = FALSE]] /\ Log(S1("Init", c))
-    /\ UNCHANGED <<sc, pst, bto, home, nc, ph, q, plc, opn, rem, sh, rounds, bad>>
+    /\ UNCHANGED <<sc, pst, bto, home, nc, ph, q, plc, opn, rem, sh, rounds, bad, rst>>
 Daemon(c) ==
     /\ More /\ c \in Claims /\ HasDs /\ cl[c].st \in {"registered", "initialized"} /\ ~cl[c].dmn
     /\ cl' = [cl EXCEPT ![c] = [@ EXCEPT !.dmn = TRUE]] /\ Log(S1("Daemon", c))
-    /\ UNCHANGED <<sc, pst, bto, home, nc, ph, q, plc, opn, rem, sh, rounds, bad>>
+    /\ UNCHANGED <<sc, pst, bto, home, nc, ph, q, plc, opn, rem, sh, rounds, bad, rst>>
 Nominated(c) == {p \in PodNames : pst[p] = "pending" /\ home[p] = c}
 Bind(c) ==
     /\ More /\ c \in Claims /\ cl[c].st = "initialized" /\ ~cl[c].marked /\ ~cl[c].deleting /\ Nominated(c) # {}
     /\ pst' = [p \in PodNames |-> IF p \in Nominated(c) THEN "bound" ELSE pst[p]]
     /\ bto' = [p \in PodNames |-> IF p \in Nominated(c) THEN c ELSE bto[p]] /\ Log(S1("Bind", c))
-    /\ UNCHANGED <<sc, home, cl, nc, ph, q, plc, opn, rem, sh, rounds, bad>>
+    /\ UNCHANGED <<sc, home, cl, nc, ph, q, plc, opn, rem, sh, rounds, bad, rst>>
 Mark(c) ==
     /\ More /\ c \in Claims /\ Launched(c) /\ cl[c].known /\ ~cl[c].marked /\ ~cl[c].deleting
     /\ cl' = [cl EXCEPT ![c] = [@ EXCEPT !.marked = TRUE]] /\ Log(S1("Mark", c))
-    /\ UNCHANGED <<sc, pst, bto, home, nc, ph, q, plc, opn, rem, sh, rounds, bad>>
+    /\ UNCHANGED <<sc, pst, bto, home, nc, ph, q, plc, opn, rem, sh, rounds, bad, rst>>
 Delete(c) ==
     /\ More /\ c \in Claims /\ Launched(c) /\ ~cl[c].deleting /\ ~cl[c].marked
     /\ cl' = [cl EXCEPT ![c] = [@ EXCEPT !.deleting = TRUE]] /\ Log(S1("Delete", c))
-    /\ UNCHANGED <<sc, pst, bto, home, nc, ph, q, plc, opn, rem, sh, rounds, bad>>
-\* Karpenter restarts: cluster state forgets everything (what is launched has to be delivered again).  Not while a node is
-\* marked for deletion: the in-memory mark would be lost and a node that "is being deleted" would count again - that
-\* combination is outside the statements (C03 counts nodes that are not being deleted).
+    /\ UNCHANGED <<sc, pst, bto, home, nc, ph, q, plc, opn, rem, sh, rounds, bad, rst>>
+\* Karpenter restarts: cluster state forgets everything (what is launched has to be delivered again) and the next Synced()
+\* evaluation is the FIRST one of the new process (hydration path).  At every point of every NodeClaim's life, also while a
+\* NodeClaim is stored but not launched.  Not while a node is marked for deletion: the in-memory mark would be lost and a
+\* node that "is being deleted" would count again - that combination is outside the statements.
 Restart ==
-    /\ More /\ (\E c \in Claims : cl[c].known) /\ (\A c \in Claims : ~cl[c].marked)
-    /\ cl' = [c \in 1..MaxClaims |-> [cl[c] EXCEPT !.known = FALSE]] /\ Log(Stp("Restart", "-", FALSE, "-", 0, FALSE, FALSE, FALSE, "-"))
+    /\ More /\ nc > 0 /\ ~rst /\ (\A c \in Claims : ~cl[c].marked)
+    /\ cl' = [c \in 1..MaxClaims |-> [cl[c] EXCEPT !.known = FALSE]] /\ rst' = TRUE
+    /\ Log(Stp("Restart", "-", FALSE, "-", 0, FALSE, FALSE, FALSE, "-"))
     /\ UNCHANGED <<sc, pst, bto, home, nc, ph, q, plc, opn, rem, sh, rounds, bad>>
 AddPod ==
     /\ More /\ sc.later # 0 /\ pst["w3"] = "absent"
     /\ pst' = [pst EXCEPT !["w3"] = "pending"] /\ Log(Stp("AddPod", "-", FALSE, "-", 0, FALSE, FALSE, FALSE, "w3"))
-    /\ UNCHANGED <<sc, bto, home, cl, nc, ph, q, plc, opn, rem, sh, rounds, bad>>
+    /\ UNCHANGED <<sc, bto, home, cl, nc, ph, q, plc, opn, rem, sh, rounds, bad, rst>>
 
 Next ==
     \/ \E d \in BOOLEAN : PassStart(d)
     \/ \E c \in 1..MaxClaims : PlaceNode(c) \/ PlaceOpen(c)
     \/ OpenNew \/ PassEnd
-    \/ \E c \in 1..MaxClaims : (\E tn \in {"A", "B"}, o \in 0..1 : Launch(c, tn, o)) \/ (\E v \in AppearVariants : Appear(c, v))
+    \/ \E c \in 1..MaxClaims : (\E tn \in {"A", "B"}, o \in 0..1 : Launch(c, tn, o)) \/ (\E v \in AppearVariants, ev \in EphForms \cup {0}, sv \in StForms : Appear(c, v, ev, sv))
                                \/ Register(c) \/ Partial(c) \/ Initialize(c) \/ Daemon(c) \/ Bind(c) \/ Mark(c) \/ Delete(c)
     \/ AddPod \/ Restart
 Spec == Init /\ [][Next]_vars
